@@ -155,6 +155,9 @@ partial def elabStmts (ps : PS) (inst : Nat) (stmts : List Stmt) (env : List (St
       let f := st.args.getD 2 "VV"
       simple .gate [a 0 (f.front == 'U'), a 1 ((f.drop 1).toString.front == 'U')]
     | "script" => if st.args.length ≥ 2 then simple (.script (num 0)) [a 1 true] else simple (.script (num 0)) []
+    | "sscript" =>   -- script node whose type declares schedule_on_start
+      let (e', idx) := addNode e inst { lbl := key, kind := .script (num 0), ins := [], sos := true }
+      elabStmts ps inst rest ((key, ⟨inst, idx, .main, none⟩) :: env) e' fbs
     | "sink" => simple .sink [a 0] false
     | "thrower" => simple (.thrower (num 0)) [a 1]
     | "probe" => simple .probe [(a 0 true).map fun r => { r with passive := true }] false
